@@ -104,6 +104,22 @@ def _sdl_layout(target: int, mode: int, order: int, ext_first: bool, ignore: boo
     return result(ok, T is not None)
 
 
+def _sdl_roots(roots: int, order: int, ext_first: bool, ignore: bool, desc: bool) -> bool:
+    """
+    pre: 0 <= roots <= 4 and 0 <= order <= 2
+    post: _
+    """
+    R, O = concrete_int(roots, 0, 4), pick(order, ("as-is", "reversed", "rotated"))
+    EF, IG, DE = (True if ext_first else False), (True if ignore else False), (True if desc else False)
+    with untraced():
+        rec = S.base_record(dict(desc=DE, dep=True, default=1, roots=R, schema_def=(R == 1)))
+        sdl = S.render(rec, {}, O, EF)
+        schema = build_schema(sdl, ignore_extensions=IG)
+        expected = S.normal(S.base_only(rec, {}) if IG else rec)
+        ok = same(S.snapshot(schema), expected)
+    return result(ok, R >= 2)
+
+
 INVALID = (
     ("dup-type", "type Query { a: Int } type A { a: Int } type A { b: Int }"),
     ("dup-directive", "type Query { a: Int } directive @d on FIELD directive @d on QUERY"),
@@ -192,6 +208,12 @@ CONDITIONS = [
         bound="full-content document: one type's members split over 1 or 2 extend blocks (9 targets incl. none and an input type only reached through another input type's default) x 3 definition orders x extensions before/after definitions x ignore_extensions x schema definition x recursion x additional_types",
         symbolic={"target,mode": "choice: how members are split across extend blocks", "order,ext_first": "choice: document order", "ignore,schema_def,rec3,custom_scalar": "choice"},
         witness={"target": 2, "mode": 1, "order": 0, "ext_first": False, "ignore": False, "schema_def": False, "rec3": False, "custom_scalar": False},
+    ),
+    Cond(
+        name="sdl_roots", fn=_sdl_roots, quick=60, thorough=120, per_path=60,
+        bound="root operation types: conventional names without a schema definition / schema definition with custom names / with SWAPPED conventional names (query: Mutation, mutation: Query) / listing only the query root while an ordinary type "
+              "is named Mutation / the same plus `extend schema { mutation: Mutation }` x 3 definition orders x extension placement x ignore_extensions x descriptions",
+        symbolic={"roots": "choice: root naming variant", "order,ext_first,ignore,desc": "choice"}, witness={"roots": 2, "order": 0, "ext_first": False, "ignore": False, "desc": True},
     ),
     Cond(
         name="sdl_invalid", fn=_sdl_invalid, quick=60, thorough=60,
